@@ -84,7 +84,7 @@ def run_check(d, prop, tier, shards):
             "tail": "" if rc == 1 else text[-300:]}
 
 
-def one(name, props, edits, diff, tier, shards, all_props):
+def one(name, props, edits, diff, tier, shards, all_props, require_baseline=True):
     d = make_copy(name)
     res = {"name": name, "owners": props}
     try:
@@ -95,7 +95,7 @@ def one(name, props, edits, diff, tier, shards, all_props):
             return res
         ok, detail = baseline(d)
         res["baseline"] = detail
-        if not ok:
+        if not ok and require_baseline:
             res["status"] = "caught-by-suite"
             return res
         res["checks"] = {}
@@ -150,7 +150,7 @@ def main():
         for name, (props, edits) in mutants.REFACTORS.items():
             if pats and not any(p in name for p in pats):
                 continue
-            r = one(name, props, edits, None, tier, 16, False)
+            r = one(name, props, edits, None, tier, 16, False, require_baseline=False)
             alarms = [p for p, c in r.get("checks", {}).items() if c["rc"] == 1]
             other = [(p, c["rc"]) for p, c in r.get("checks", {}).items() if c["rc"] not in (0, 1)]
             print("%-10s %-48s baseline: %s  alarms: %s  non-verdicts: %s" % ("SILENT" if not alarms and r.get("checks") else "ALARM/ERR", name, r.get("baseline") or r.get("detail"), alarms, other))
